@@ -1,6 +1,6 @@
 """C10 configuration."""
 PROP = dict(
-    quick_n=8000, thorough_n=300000,
+    quick_n=5000, thorough_n=300000,
     trusted_base=[
         "values of the modelled fragment are canonically represented (the Go dynamic type of a value is a function of its "
         "meaning: kindOfTuple/kindOfSet in Arrai/C10/Model.lean), which is property C02; non-canonical tuples produced by +> are outside",
@@ -33,16 +33,18 @@ PROP = dict(
                "patterns, function values, and the absence of hangs; each fuzzed case runs in a child process with a 10 s limit (40 s on "
                "the one retry), 2 GiB GOMEMLIMIT, 8 GiB address space and a 256 MB goroutine stack. Open findings are reported as "
                "KNOWN-FINDING lines: KF-pinned-panics, KF-setpattern-panic, KF-function-as-set, KF-relation-bucket, KF-deep-nesting, "
-               "KF-grammar-parse.",
+               "KF-grammar-parse, KF-huge-repeat. Besides the sampled streams every run "
+               "enumerates two grids: every safe stdlib function x parameter position x 44 boundary arguments (x 5 typical fillers), "
+               "and every operator x 20 empty/degenerate operands on either side (about 22 000 cases).",
     design_ref="DESIGN.md section 6, C10",
     watch=["rel.NewTuple", "rel.TupleBuilder.Finish", "rel.SetBuilder.Add", "rel.SetBuilder.Finish", "rel.relationBuilder.Add",
            "rel.GenericTuple.getBucket", "rel.newArithExpr", "rel.addValues", "rel.NewWithExpr", "rel.NewWithoutExpr", "rel.Call",
            "rel.SetCall", "rel.newSetBinExpr", "rel.Concatenate", "rel.OffsetExpr.Eval", "rel.Array.With", "rel.Array.withItem",
            "rel.Array.CallAll", "rel.String.CallAll", "rel.Bytes.CallAll", "rel.Dict.CallAll", "rel.GenericSet.CallAll",
-           "rel.SeqArrowExpr.Eval", "rel.NewRelationExpr", "rel.DotExpr.Eval", "rel.CountExpr.Eval",
+           "rel.SeqArrowExpr.Eval", "rel.NewRelationExpr", "rel.DotExpr.Eval", "rel.NewCountExpr",
            "syntax.subset", "syntax.subsetOrEqual", "syntax.subsetOrSuperset", "syntax.subsetSupersetOrEqual",
            "syntax.ParseContext.Parse", "syntax.ParseContext.compileRelation", "syntax.ParseContext.compileBinop",
            "syntax.ParseContext.compilePostfixAndTouch", "syntax.ParseContext.compileExprs", "syntax.stdSeqRepeat", "syntax.bytesJoin",
            "syntax.evalExpr", "syntax.formatValue"],
-    env={"HARNESS_TIMEOUT_MS": "10000", "GOMEMLIMIT": "2GiB", "C10_AS_MB": "8192", "C10_MAXSTACK_MB": "256", "C10_PROCS": "12"},
+    env={"HARNESS_TIMEOUT_MS": "10000", "GOMEMLIMIT": "2GiB", "C10_AS_MB": "8192", "C10_MAXSTACK_MB": "256", "C10_PROCS": "16"},
 )
